@@ -440,3 +440,24 @@ M("C14", "lonf-variants-dropped", LO, "    trend_series = Series(num_variants=nu
 M("C14", "lonf-lists-crossed", LO, "        trend_data_variants.append(trend_data, )\n        gap_data_variants.append(gap_data, )", "        trend_data_variants.append(gap_data, )\n        gap_data_variants.append(trend_data, )", "C14-R1")
 M("C14", "lonf-return-swapped", LO, "    return trend_series, gap_series,", "    return gap_series, trend_series,", "C14-R1")
 T("C14", "twin-lonf-num-variants-inline", LO, "    num_variants = len(trend_data_variants)\n", "    num_variants = len(gap_data_variants)\n")
+M("C03", "info-series-on-base-span", KAL, "        out_info_v = cache.create_out_info(input_ds_v.periods, )", "        out_info_v = cache.create_out_info(span, )", "C03-R8")
+M("C03", "contributions-filtered", KAL, "            # if num_obs is not None\n", "            if num_obs\n", "C03-R8")
+T("C03", "twin-info-series-root-dataslate", KAL, "        out_info_v = cache.create_out_info(input_ds_v.periods, )", "        out_info_v = cache.create_out_info(input_ds.periods, )")
+M("C16", "split-ids-sorted", BLZ, "    extracted = tuple(ids[i] for i in index)", "    index = set(index)\n    extracted = tuple(id_ for i, id_ in enumerate(ids) if i in index)", "C16-R3")
+T("C16", "twin-split-ids-loop", BLZ, "    extracted = tuple(ids[i] for i in index)", "    extracted = tuple([ids[j] for j in index])")
+M("C16", "failed-order-includes-remainder", BLZ, "        return eids_first + eids_last\n", "        return eids_first + eids_rem + eids_last\n", "C16-R4")
+T("C16", "twin-failed-order-raises", BLZ, '            _wrongdoings.IrisPieError("Cannot find strict sequential reordering", )\n        return eids_first + eids_last\n', '            raise _wrongdoings.IrisPieError("Cannot find strict sequential reordering", )\n        return eids_first + eids_rem + eids_last\n')
+SQS = "sequentials/_simulate.py"
+M("C17", "exogenized-by-truthiness", SQS, "                equation.simulate\n                if implied_value is None\n                else equation.exogenize", "                equation.exogenize\n                if implied_value\n                else equation.simulate", "C17-R7")
+M("C17", "exogenized-dispatch-inverted", SQS, "                if implied_value is None\n", "                if implied_value is not None\n", "C17-R7")
+T("C17", "twin-exogenized-is-not-none", SQS, "                equation.simulate\n                if implied_value is None\n                else equation.exogenize", "                equation.exogenize\n                if implied_value is not None\n                else equation.simulate")
+M("C17", "variant-loop-container", SQS, "            model_v, dataslate_v, plan, vid,", "            model_v, dataslate, plan, vid,", "C17-R6")
+M("C18", "exogenous-impact-from-container", "red_vars/_simulators.py", "            exogenous_impact = _simulate_exogenous_impact(model_v, dataslate_v, )", "            exogenous_impact = _simulate_exogenous_impact(model_v, dataslate, )", "C18-R6")
+M("C18", "simulate-flat-on-container", "red_vars/_simulators.py", "            model_v, dataslate_v, frame,", "            model_v, dataslate, frame,", "C18-R6")
+M("C08", "filter-data-from-container", KAL, "        data_array = input_ds_v.get_data_variant()", "        data_array = input_ds.get_data_variant()", "C08-R6")
+M("C19", "resolver-filters-sources-first", "databoxes/main.py", "        if target_names is None:\n            target_names = source_names\n        if isinstance(target_names, str):", "        if not strict_names:\n            source_names = tuple(n for n in source_names if n in context_names)\n        if target_names is None:\n            target_names = source_names\n        if isinstance(target_names, str):", "C19-R2")
+T("C19", "twin-resolver-loop", "databoxes/main.py", "            source_target_pairs = tuple((s, t) for s, t in zip(source_names, target_names, ) if s in context_names)", "            source_target_pairs = tuple(p for p in zip(source_names, target_names, ) if p[0] in context_names)")
+INV = "simultaneous/_invariants.py"
+M("C20", "setstate-defaults-win", INV, "            setattr(self, k, state[k])\n        self._populate_derived_attributes()", "            setattr(self, k, state[k])\n        self.tolerance = (self.tolerance or {}) | _tolerance._DEFAULT_TOLERANCE\n        self._populate_derived_attributes()", "C20-R3")
+T("C20", "twin-setstate-restored-wins", INV, "            setattr(self, k, state[k])\n        self._populate_derived_attributes()", "            setattr(self, k, state[k])\n        self.tolerance = _tolerance._DEFAULT_TOLERANCE | (self.tolerance or {})\n        self._populate_derived_attributes()")
+M("C20", "zero-array-ignores-variant", "simultaneous/main.py", "        if variant is None:\n            variant = self._variants[0]\n        return variant.create_zero_array(qid_to_logly, **kwargs, )", "        return self._variants[0].create_zero_array(qid_to_logly, **kwargs, )", "C20-R5")
